@@ -229,35 +229,27 @@ func Parse(sql string) (*Query, error) {
 }
 
 // checkBackticks makes sure that backtick-quoted identifiers are terminated.
-// The sqlparser's tokenizer loops forever (and grows its buffer without bound)
-// on an unterminated one.
+// The sqlparser's tokenizer takes the character after an opening backtick as
+// part of the identifier whatever it is and then reads up to the next backtick
+// without checking for the end of the input, so it loops forever (and grows its
+// buffer without bound) on an unterminated identifier, which includes an empty
+// one (two adjacent backticks). To find these, the statement is scanned with that same tokenizer
+// after appending a guard that terminates a dangling identifier and is nothing
+// but comments otherwise.
 func checkBackticks(sql string) error {
-	inBacktick := false
-	var inString byte
-	for i := 0; i < len(sql); i++ {
-		c := sql[i]
-		switch {
-		case inBacktick:
-			if c == '`' {
-				inBacktick = false
-			}
-		case inString != 0:
-			if c == '\\' {
-				i++
-			} else if c == inString {
-				inString = 0
-			}
-		case c == '\'' || c == '"':
-			inString = c
-		case c == '`':
-			inBacktick = true
+	tokenizer := sqlparser.NewStringTokenizer(sql + backtickGuard)
+	for {
+		typ, _ := tokenizer.Scan()
+		if typ == 0 {
+			return nil
+		}
+		if typ == sqlparser.ID && tokenizer.Position > len(sql)+1 {
+			return errors.New("unterminated ` quoted identifier")
 		}
 	}
-	if inBacktick {
-		return errors.New("unterminated ` quoted identifier")
-	}
-	return nil
 }
+
+const backtickGuard = " /*`*/ -- `"
 
 func parse(stmt *sqlparser.Select) (*Query, error) {
 	q := &Query{
@@ -282,7 +274,12 @@ func parse(stmt *sqlparser.Select) (*Query, error) {
 		} else {
 			sql = q.HavingSQL
 		}
-		combinedFields, combinedParseErr := sqlparser.Parse(fmt.Sprintf("SELECT %v FROM whatever", sql))
+		syntheticSQL := fmt.Sprintf("SELECT %v FROM whatever", sql)
+		combinedParseErr := checkBackticks(syntheticSQL)
+		var combinedFields sqlparser.Statement
+		if combinedParseErr == nil {
+			combinedFields, combinedParseErr = sqlparser.Parse(syntheticSQL)
+		}
 		if combinedParseErr != nil {
 			return nil, fmt.Errorf("Unable to parse synthetic SQL query for combined fields: %v", combinedParseErr)
 		}
